@@ -73,6 +73,14 @@ def fault_atoms():
         [["stall"], ["send", "ac_ctrl", "idem", "t3"], ["send", "zone_ctrl", "long", "t2"],
          ["turns", 2], ["rst"]],
         [["wfail", 1, "timeout"]], [["wfail", 2, "oserror"]], [["wfail", 1, "reset"]],
+        # a subscriber that submits a message from inside the disconnected notification,
+        # while the failure is being handled by the send path / by the reader
+        [["on_disconnect_send", "zone_ctrl", "idem"], ["wfail", 1]],
+        [["on_disconnect_send", "ac_ctrl", "long"], ["wfail", 2], ["send", "zone_ctrl", "idem", "t1"]],
+        [["on_disconnect_send", "zone_ctrl", "idem"], ["rst"]],
+        [["on_disconnect_send", "zone_ctrl", "idem"], ["on_connect_send", "ac_ctrl", "idem"],
+         ["fin"]],
+        [["slow_conn", 3.0], ["fin"]],
     ]
 
 
@@ -224,9 +232,15 @@ async def recovery_tail(gen, w, run, out):
     for c in net.open_conns():
         c.transport.unstall()
         c.fail_write_at = None
+    # the application's subscribers are quick again; one that is busy right now gets the time
+    # it still needs (it is the application's time, not the client's)
+    w.conn_delays.clear()
+    now = loop.time()
+    busy = max([t + d["delay"] - now for _, t, k, d in log.events if k == "SUB.conn_slow"]
+               + [0.0])
     log.add("ORACLE.start")
     mark = log.mark()
-    await asyncio.sleep(2.0 + maxlat + 1.0)
+    await asyncio.sleep(max(busy, 0.0) + 2.0 + maxlat + 1.0)
     await quiesce(loop)
     out["open_after_T"] = [c.id for c in net.open_conns()]
     conn_events = [d["connected"] for _, _, k, d in log.events if k == "SUB.conn"]
